@@ -1,3 +1,4 @@
+import Pocket.Lemmas.FromSourceLayout
 import Pocket.Lemmas.FromSourcePreds
 import Pocket.Lemmas.FromSourceConsts
 import Pocket.Thm.C19
@@ -177,5 +178,14 @@ theorem escape_constants_from_source :
 
 /-- the characters `json_escape` copies unescaped are those `is_safe_char` lists in the source today -/
 theorem safe_char_from_source (c : Nat) : Src.isSafeChar c = isSafeChar c := Pocket.safe_char_from_source c
+
+/-- the binary layout the theorems above are about is the one `event.rs` writes and reads today: the contiguous writes of
+`Event::from_parts` (translated statement by statement on every run) are the model's encoding, `output_size_needed` its size, and
+every accessor reads where the model's decoder reads -/
+theorem event_layout_from_source (id pk sig : Bytes) (kind t : Nat) (tagBytes content b : Bytes) :
+    Src.encodeEventWith id pk sig kind t tagBytes content = encodeEventWith id pk sig kind t tagBytes content ∧
+    Src.eventSize tagBytes.length content.length = eventSize tagBytes.length content.length ∧
+    eventDecodeAt Src.evReads b = eventDecode b :=
+  ⟨event_writer_from_source id pk sig kind t tagBytes content, rfl, event_readers_from_source b⟩
 
 end Pocket.C02
